@@ -13,5 +13,5 @@ cp -n /repo/Cargo.lock harness/Cargo.lock 2>/dev/null || true
 (cd harness && cargo build --release --offline)
 # the real binary (C12: plain; C17: with the headless hook), built from /repo's working tree
 (cd /repo && cargo build --release --offline -p emulator-2a --target-dir "$HERE/harness/target-bin")
-(cd /repo && cargo build --release --offline -p emulator-2a --features verif-hooks --target-dir "$HERE/harness/target-bin-hooks")
+(cd /repo && CARGO_PROFILE_RELEASE_OVERFLOW_CHECKS=true CARGO_PROFILE_RELEASE_DEBUG_ASSERTIONS=true cargo build --release --offline -p emulator-2a --features verif-hooks --target-dir "$HERE/harness/target-bin-hooks")
 echo "setup ok"
